@@ -22,7 +22,7 @@ GROUP = dict(
     canary='    axiom_string_from(); broadcast use axiom_ascii_to_lower;',
     units=[
         dict(id='U-lower.lowercase_in_place', file='purl/src/lib.rs', fn='lowercase_in_place',
-             properties=['C08', 'C10', 'C12', 'C01', 'C02', 'C09'],
+             properties=['C08', 'C10', 'C12', 'C01', 'C02', 'C09', 'C18'],
              ret=None,
              contract='    ensures final(s)@ == lower_seq(old(s)@)',
              hoist=[('R6', r'enum State \{[^}]*\}', r'pub \g<0>')],
